@@ -10,6 +10,7 @@ use std::sync::atomic::{AtomicU64, Ordering};
 thread_local! {
     static SEED: Cell<Option<u64>> = const { Cell::new(None) };
     static CTR: Cell<u64> = const { Cell::new(0) };
+    static CHILD: Cell<u64> = const { Cell::new(0) };
 }
 
 /// How many times the interposed `getrandom` served simulator-chosen bytes.
@@ -18,6 +19,21 @@ pub static SERVED: AtomicU64 = AtomicU64::new(0);
 pub fn set_thread_seed(seed: u64) {
     SEED.with(|s| s.set(Some(seed)));
     CTR.with(|c| c.set(0));
+    CHILD.with(|c| c.set(0));
+}
+
+/// Seed for the next thread this (seeded) thread starts: a function of its own seed and of
+/// how many it has started before, so that a run's threads get the same keys in every
+/// process and replay.
+pub fn next_child_seed() -> u64 {
+    let base = SEED.with(|s| s.get()).unwrap_or(0);
+    let n = CHILD.with(|c| {
+        let v = c.get();
+        c.set(v + 1);
+        v
+    });
+    let mut st = base ^ 0xA076_1D64_78BD_642F ^ n.wrapping_mul(0xE703_7ED1_A0B4_28DB);
+    splitmix(&mut st)
 }
 
 fn splitmix(x: &mut u64) -> u64 {
